@@ -295,9 +295,12 @@ struct condition_variable {
     }
     void notify_one() noexcept
     {
-        // wakes the longest sleeper (the model does the same)
-        if (vs::active()) vs::S().visible(vs::K_NOTIFY_ONE, this);
-        if (!sleepers.empty()) sleepers.erase(sleepers.begin());
+        // wakes ONE sleeper; which one is the implementation's choice: the schedule's choice c selects the
+        // (c mod n)-th oldest sleeper (c = 0: the longest sleeper).  The library itself never calls notify_one;
+        // this only matters for changed code under test.
+        int c = 0;
+        if (vs::active()) c = vs::S().visible(vs::K_NOTIFY_ONE, this);
+        if (!sleepers.empty()) sleepers.erase(sleepers.begin() + (c % (int)sleepers.size()));
         if (vs::active()) vs::S().emit(vs::K_NOTIFY_ONE, this, 0);
     }
     // returns true when the wake-up was a time-out.
